@@ -285,6 +285,26 @@ def run(prog: Program, res: Result) -> None:
     # ------------------------------------------------------------------ R4 transform_solution
     ts = flatteners["transform_solution"]
     x = ts.params[1] if len(ts.params) > 1 else None
+    # positive-only site rule (any shape of the function): the flat position is indexed / sliced at the *ordinal* of the
+    # variable in self.variables - right only while every earlier variable has size 1
+    ordinals = set()
+    for n in ast.walk(ts.node):
+        tgt = it = None
+        if isinstance(n, ast.For):
+            tgt, it = n.target, n.iter
+        elif isinstance(n, ast.comprehension):
+            tgt, it = n.target, n.iter
+        if it is not None and isinstance(it, ast.Call) and isinstance(it.func, ast.Name) and it.func.id == "enumerate" \
+                and len(it.args) == 1 and not it.keywords and dotted(it.args[0]) in ("self.variables",) \
+                and isinstance(tgt, ast.Tuple) and len(tgt.elts) == 2 and isinstance(tgt.elts[0], ast.Name):
+            ordinals.add(tgt.elts[0].id)
+    for n in ast.walk(ts.node):
+        if isinstance(n, ast.Subscript) and isinstance(n.value, ast.Name) and n.value.id == x and isinstance(n.ctx, ast.Load):
+            at = n.slice.lower if isinstance(n.slice, ast.Slice) else n.slice
+            if isinstance(at, ast.Name) and at.id in ordinals:
+                bad("R4-offset-is-variable-ordinal", n, f"models.Task.transform_solution::{norm(n, 50)}",
+                    f"transform_solution reads `{norm(n, 50)}`: `{at.id}` is the ordinal of the variable in self.variables, not the sum of "
+                    f"the sizes of the variables before it - every variable after a composite of size > 1 is decoded from the wrong coordinates")
     fors = [n for n in own_nodes(ts) if isinstance(n, ast.For) and dotted(n.iter) == "self.variables"]
     if len(fors) == 1:
         loop = fors[0]
@@ -385,6 +405,10 @@ from ..selftest import V, run_battery  # noqa: E402
 
 _M = "pyvolutionary/models.py"
 VARIANTS = [
+    V("transform-solution-offset-is-ordinal", _M,
+      "        counter = 0\n        solution = {}\n        for v in self.variables:\n            temp = x[counter:(counter + v.size())]\n            solution[v.name] = v.decode(temp if v.has_children() else temp[0])\n            counter += v.size()\n        return solution",
+      "        return {\n            v.name: v.decode(x[idx:(idx + v.size())] if v.has_children() else x[idx])\n            for idx, v in enumerate(self.variables)\n        }",
+      "C14.R4-offset"),
     V("binary-bounds-list-of-pairs", _M, "        lb = np.zeros(self.n_vars)\n        ub = (2 - np.finfo(float).eps) * np.ones(self.n_vars)\n        return lb, ub",
       "        return [(0, 2 - np.finfo(float).eps) for _ in range(self.n_vars)]", "C14.R2"),
     V("flattener-uses-size", _M, "        return [item for v in self.variables for item in (v.get() if v.has_children() else [v.get()])]",
